@@ -6,37 +6,37 @@ From NM Require Import Engine EngineSpec MiniGo Flow Guard.
 From NP Require Import EngineBasics EngineStep EngineSound EngineComplete EngineMain EngineOrder FlowProofs GuardProofs.
 Import ListNotations.
 
-Definition ALLT (r : list trigger * list (list trigger) * bool) : list trigger := all_triggers r.
-
 Lemma engine_clean_no_flow ts st : pkg_run [] [] ts st -> conflicts st = [] -> ~ has_flow (csys_of [] [] ts).
 Proof.
   intros Hr Hc Hf. pose proof (engine_conflict_iff_flow [] [] ts st Hr) as [_ H].
   apply H; auto.
 Qed.
 
-Lemma engine_flow_reported ts st : pkg_run [] [] ts st -> has_flow (csys_of [] [] ts) -> conflicts st <> [].
-Proof. intros Hr Hf. now apply (engine_conflict_iff_flow [] [] ts st Hr). Qed.
-
 (* clean means panic-free *)
-Theorem whole_sound prog afuel decl tss st :
-  analyze_program afuel prog = Some (decl, tss, true) -> wf_program prog = true ->
-  pkg_run [] [] (decl ++ concat tss) st -> conflicts st = [] ->
+Theorem whole_sound prog afuel ctr pk r st :
+  analyze_program afuel ctr pk prog = Some r -> r_gsafe r = true -> r_clocal r = true ->
+  wf_program prog = true -> ctr_arity ctr 0 (p_funcs prog) = true ->
+  (forall g fd, ctr g = true -> nth_error (p_funcs prog) g = Some fd -> contract_true prog fd) ->
+  pkg_run [] [] (all_triggers r) st -> conflicts st = [] ->
   forall fuel oracle, panic_of (run_program prog fuel oracle) = None.
 Proof.
-  intros Han Hwf Hr Hc. eapply flow_sound; eauto. eapply engine_clean_no_flow; eauto.
+  intros Han Hg Hl Hwf Har Hct Hr Hc. eapply flow_sound; eauto. eapply engine_clean_no_flow; eauto.
 Qed.
 
 (* some execution dereferences nil => at least one conflict is reported *)
-Theorem whole_reported prog afuel decl tss st fuel oracle d :
-  analyze_program afuel prog = Some (decl, tss, true) -> wf_program prog = true ->
-  pkg_run [] [] (decl ++ concat tss) st ->
+Theorem whole_reported prog afuel ctr pk r st fuel oracle d :
+  analyze_program afuel ctr pk prog = Some r -> r_gsafe r = true -> r_clocal r = true ->
+  wf_program prog = true -> ctr_arity ctr 0 (p_funcs prog) = true ->
+  (forall g fd, ctr g = true -> nth_error (p_funcs prog) g = Some fd -> contract_true prog fd) ->
+  pkg_run [] [] (all_triggers r) st ->
   panic_of (run_program prog fuel oracle) = Some d -> conflicts st <> [].
 Proof.
-  intros Han Hwf Hr Hp Hc. rewrite (whole_sound _ _ _ _ _ Han Hwf Hr Hc fuel oracle) in Hp. discriminate.
+  intros Han Hg Hl Hwf Har Hct Hr Hp Hc.
+  rewrite (whole_sound _ _ _ _ _ _ Han Hg Hl Hwf Har Hct Hr Hc fuel oracle) in Hp. discriminate.
 Qed.
 
 (* every sink of the emitted constraints is a dereference whose producers can fire: if those all sit at one
-   dereference d, every reported flow ends at d *)
+   dereference d, every sink of a reported flow is at d *)
 Theorem lone_sink ts d :
   (forall t, In t ts -> t_cons t = KAlways -> t_prod t <> KNever -> t_id t = d) ->
   forall t a, In t ts -> In a (atoms_of_trigger t) ->
@@ -48,23 +48,25 @@ Proof.
 Qed.
 
 (* guarded programs are clean *)
-Theorem guarded_clean prog afuel r st :
-  guarded prog = true -> analyze_program afuel prog = Some r ->
+Theorem guarded_clean prog afuel ctr pk r st :
+  guarded prog = true -> analyze_program afuel ctr pk prog = Some r ->
   pkg_run [] [] (all_triggers r) st -> conflicts st = [].
 Proof.
   intros Hg Han Hr. destruct (conflicts st) eqn:E; auto. exfalso.
-  apply (guarded_no_flow prog afuel r Hg Han). apply (engine_conflict_iff_flow [] [] _ st Hr). rewrite E. discriminate.
+  apply (guarded_no_flow prog afuel ctr pk r Hg Han). apply (engine_conflict_iff_flow [] [] _ st Hr). rewrite E. discriminate.
 Qed.
 
 (* ---------- witnesses ---------- *)
 Definition all_exported (s : site) := true.
+Definition no_ctr (f : fname) := false.
+Definition one_pkg (f : fname) := 0.
 
 (* F0: x := new; y := F1(x, nil) under a guard; dereferences under guards; a loop; a package-level variable *)
 Definition ex_ok : program :=
   {| p_funcs :=
        [ {| f_nparams := 0;
             f_body := SSeq (SAssign (VL 0) ANew)
-                     (SSeq (SCall 0 (Some (VL 1)) 1 [AVar (VL 0); ANil])
+                     (SSeq (SCall 1 (Some (VL 1)) 1 [AVar (VL 0); ANil])
                      (SSeq (SIf (CAnd (CNonNil (VL 1)) COpaque) (SDeref 1 (VL 1)) SSkip)
                      (SSeq (SWhile (CAnd COpaque (CNonNil (VG 0))) (SSeq (SDeref 2 (VG 0)) (SAssign (VL 1) (AVar (VG 0)))))
                            (SAssign (VG 0) ANew)))) |};
@@ -74,31 +76,63 @@ Definition ex_ok : program :=
      p_ginit := [false] |}.
 
 Example ex_ok_premises :
-  exists decl tss r,
-    analyze_program 8 ex_ok = Some (decl, tss, true) /\ wf_program ex_ok = true /\
-    analyze_pkg all_exported 200 [] [] (decl ++ concat tss) = Finished r /\ r_conflicts r = [] /\
+  exists r res,
+    analyze_program 8 no_ctr one_pkg ex_ok = Some r /\ r_gsafe r = true /\ r_clocal r = true /\
+    wf_program ex_ok = true /\ ctr_arity no_ctr 0 (p_funcs ex_ok) = true /\
+    analyze_pkg all_exported 200 [] [] (all_triggers r) = Finished res /\ r_conflicts res = [] /\
     guarded ex_ok = true.
-Proof. vm_compute. do 3 eexists. repeat split; reflexivity. Qed.
+Proof. vm_compute. do 2 eexists. repeat split; reflexivity. Qed.
 
 (* F2: the tracked package-level variable is not invalidated by the call that re-assigns it *)
 Definition ex_global : program :=
   {| p_funcs :=
        [ {| f_nparams := 0;
-            f_body := SSeq (SAssign (VG 0) ANew) (SSeq (SCall 0 None 1 []) (SDeref 1 (VG 0))) |};
+            f_body := SSeq (SAssign (VG 0) ANew) (SSeq (SCall 1 None 1 []) (SDeref 1 (VG 0))) |};
          {| f_nparams := 0; f_body := SAssign (VG 0) ANil |} ];
      p_ginit := [true] |}.
 
 Theorem refuted_without_call_safety :
-  exists prog decl tss st fuel oracle,
-    analyze_program 8 prog = Some (decl, tss, false) /\ wf_program prog = true /\
-    pkg_run [] [] (decl ++ concat tss) st /\ conflicts st = [] /\
+  exists prog r st fuel oracle,
+    analyze_program 8 no_ctr one_pkg prog = Some r /\ r_gsafe r = false /\ r_clocal r = true /\
+    wf_program prog = true /\
+    pkg_run [] [] (all_triggers r) st /\ conflicts st = [] /\
     panic_of (run_program prog fuel oracle) = Some 1.
 Proof.
-  assert (H : exists decl tss r, analyze_program 8 ex_global = Some (decl, tss, false) /\
-             analyze_pkg all_exported 200 [] [] (decl ++ concat tss) = Finished r /\ r_conflicts r = []).
-  { vm_compute. do 3 eexists. repeat split; reflexivity. }
-  destruct H as [decl [tss [r [Ha [Hr Hc]]]]].
-  destruct (analyze_pkg_run all_exported 200 [] [] _ r (or_introl Hr)) as [st [Hrun [Hcs _]]].
-  exists ex_global, decl, tss, st, 10, []. repeat split; auto.
-  - congruence.
+  assert (H : exists r res, analyze_program 8 no_ctr one_pkg ex_global = Some r /\ r_gsafe r = false /\ r_clocal r = true /\
+             analyze_pkg all_exported 200 [] [] (all_triggers r) = Finished res /\ r_conflicts res = []).
+  { vm_compute. do 2 eexists. repeat split; reflexivity. }
+  destruct H as [r [res [Ha [Hg [Hl [Hr Hc]]]]]].
+  destruct (analyze_pkg_run all_exported 200 [] [] _ res (or_introl Hr)) as [st [Hrun [Hcs _]]].
+  exists ex_global, r, st, 10, []. repeat split; auto. congruence.
 Qed.
+
+(* a contracted callee in another package: the call-site sites are never connected to the callee (F4) *)
+Definition ex_xpkg : program :=
+  {| p_funcs :=
+       [ {| f_nparams := 0;
+            f_body := SSeq (SCall 1 (Some (VL 1)) 1 [AVar (VL 0)]) (SDeref 1 (VL 1)) |};
+         {| f_nparams := 1; f_body := SReturn (AVar (VL 0)) |} ];
+     p_ginit := [] |}.
+Definition ctr1 (f : fname) := Nat.eqb f 1.
+Definition two_pkgs (f : fname) := match f with 0 => 1 | _ => 0 end.
+
+Theorem refuted_without_contract_locality :
+  exists prog r st fuel oracle,
+    analyze_program 8 ctr1 two_pkgs prog = Some r /\ r_gsafe r = true /\ r_clocal r = false /\
+    wf_program prog = true /\ ctr_arity ctr1 0 (p_funcs prog) = true /\
+    pkg_run [] [] (all_triggers r) st /\ conflicts st = [] /\
+    panic_of (run_program prog fuel oracle) = Some 1.
+Proof.
+  assert (H : exists r res, analyze_program 8 ctr1 two_pkgs ex_xpkg = Some r /\ r_gsafe r = true /\ r_clocal r = false /\
+             analyze_pkg all_exported 200 [] [] (all_triggers r) = Finished res /\ r_conflicts res = []).
+  { vm_compute. do 2 eexists. repeat split; reflexivity. }
+  destruct H as [r [res [Ha [Hg [Hl [Hr Hc]]]]]].
+  destruct (analyze_pkg_run all_exported 200 [] [] _ res (or_introl Hr)) as [st [Hrun [Hcs _]]].
+  exists ex_xpkg, r, st, 10, []. repeat split; auto. congruence.
+Qed.
+
+(* with the callee in the caller's package the same program is reported *)
+Example xpkg_local_reported :
+  exists r res, analyze_program 8 ctr1 one_pkg ex_xpkg = Some r /\ r_clocal r = true /\
+    analyze_pkg all_exported 200 [] [] (all_triggers r) = Finished res /\ r_conflicts res <> [].
+Proof. vm_compute. do 2 eexists. repeat split; try reflexivity. discriminate. Qed.
